@@ -24,8 +24,7 @@ Proof. intros A P l i x H E. rewrite Forall_forall in H. apply H. eapply nth_err
 Lemma expect_all_ok : forall l tg it i, Forall chan_ok l -> Forall chan_ok (expect_all l tg it i).
 Proof.
   induction l as [|c l IH]; intros tg it i H; cbn; [constructor|]. inversion H; subst.
-  constructor; [|apply IH; assumption]. destruct (existsb (Nat.eqb i) tg); [|assumption].
-  exact H2.
+  constructor; [|apply IH; assumption]. exact H2.
 Qed.
 
 Lemma push_ok : forall c it, chan_ok c -> chan_ok (push c it).
